@@ -23,10 +23,10 @@ type ContSpec struct {
 	Key    uint16   `json:"key"`
 	Kind   string   `json:"kind"` // array | bitmap | run
 	Start  int      `json:"start"`
-	N      int      `json:"n"`                // array/bitmap: number of progression values; run: number of runs
-	Step   int      `json:"step"`             // distance of progression values / of run starts
+	N      int      `json:"n"`                 // array/bitmap: number of progression values; run: number of runs
+	Step   int      `json:"step"`              // distance of progression values / of run starts
 	RunLen int      `json:"run_len,omitempty"` // run: length of each run (< Step)
-	Extra  []uint16 `json:"extra,omitempty"`  // array/bitmap: additional single values
+	Extra  []uint16 `json:"extra,omitempty"`   // array/bitmap: additional single values
 }
 
 // BMOp is one public-API call on a roaring bitmap.
@@ -293,7 +293,7 @@ func infoState(infos []index.VerifSegmentInfo) []SegState {
 	for _, in := range infos {
 		s := SegState{ID: in.ID, Type: in.Type, Version: in.Version}
 		if in.Deleted != nil {
-			s.Deleted = in.Deleted.ToArray()
+			s.Deleted = safeToArray(in.Deleted)
 		}
 		out = append(out, s)
 	}
@@ -550,4 +550,16 @@ func genSnap(t *rapid.T, maxSegs int) SnapCase {
 		c.Note = "short-last-entry"
 	}
 	return c
+}
+
+// safeToArray: a bitmap parsed from a damaged blob (wrong cardinality in its header) can make
+// the library's own accessors panic; that is the library's business and only happens for blobs
+// this harness does not judge.  Such a set is reported as a single impossible marker value pair.
+func safeToArray(bm *roaring.Bitmap) (out []uint32) {
+	defer func() {
+		if recover() != nil {
+			out = []uint32{0xffffffff, 0xffffffff}
+		}
+	}()
+	return bm.ToArray()
 }
